@@ -9,6 +9,7 @@ from ..common import hx, mk_event, p_ev, p_list, us_to_dt
 from .. import storegen, storelib
 
 T0 = storegen.T0
+FUTURE = 5_680_000_000_000_000  # an instant in 2149, in µs
 
 
 def file_hash(p):
@@ -33,7 +34,7 @@ class C14(Prop):
     def gen(self, ctx):
         out = []
         rng = ctx.rng("c14")
-        for i in range(ctx.pick(40, 200)):
+        for i in range(ctx.pick(70, 300)):
             nb = rng.choice([0, 1, 1, 2, 3, 4])
             buckets = []
             for k in range(nb):
@@ -44,8 +45,29 @@ class C14(Prop):
                         rng.choice(storegen.LABELS)] for _ in range(n)]
                 buckets.append({"id": bid, "meta": m, "events": evs})
             mode = rng.choice(["same", "same", "same", "other-profile", "custom-path"])
-            out.append(("legacy-db", {"testing": rng.random() < 0.5, "mode": mode, "buckets": buckets,
-                                      "other_first": mode == "same" and rng.random() < 0.3}))
+            case = {"testing": rng.random() < 0.5, "mode": mode, "buckets": buckets,
+                    "other_first": mode == "same" and rng.random() < 0.3}
+            r = rng.random()
+            if mode == "same" and r < 0.2:
+                # other files whose names begin like the legacy database lie beside it (a backup copy, a stale journal)
+                case["sidecar"] = rng.choice([[".bak"], ["-journal"], [".bak", ".old"]])
+            elif mode == "same" and r < 0.45 and buckets:
+                # both profiles have a legacy database; both are migrated by one process, the first new store still open
+                other = []
+                for k in range(rng.randint(1, 2)):
+                    bid = "other-profile-" + str(k)
+                    other.append({"id": bid, "meta": storegen.mk_meta(rng, bid),
+                                  "events": [[None, T0 + rng.randrange(0, 50) * 1_000_000, rng.choice([0, 1500, 2_000_000]),
+                                              rng.choice(storegen.LABELS)] for _ in range(rng.randint(1, 5))]})
+                case["both_profiles"] = other
+                case["other_first"] = False
+            if rng.random() < 0.15 and buckets:
+                # events dated after the day of the migration (a clock that ran ahead; years after 2100 only draw a warning)
+                b = rng.choice(buckets)
+                b["events"] = b["events"] + [[None, FUTURE + rng.randrange(0, 9) * 1_000_000, rng.choice([0, 1_000_000]), storegen.LABELS[0]]
+                                             for _ in range(rng.randint(1, 3))]
+                b["events"].append([None, T0, FUTURE - T0 + 5_000_000, storegen.LABELS[1]])  # begins in the past, ends in 2149
+            out.append(("legacy-db", case))
         return out
 
     def impl(self, case):
@@ -65,9 +87,25 @@ class C14(Prop):
             store = type("S", (), {"st": legacy})
             legacy_dump = storelib.dump(store)
             legacy.db.close()
+            second = None
+            if case.get("both_profiles"):
+                legacy2 = PeeweeStorage(testing=not case["testing"])
+                for b in case["both_profiles"]:
+                    m = b["meta"]
+                    legacy2.create_bucket(b["id"], m["type"], m["client"], m["hostname"], storelib.created_iso(m["created_us"]),
+                                          name=m.get("name"), data=json.loads(m["data"]) if m.get("data") else None)
+                    legacy2.insert_many(b["id"], [mk_event(e) for e in b["events"]])
+                second = {"legacy": storelib.dump(type("S", (), {"st": legacy2}))}
+                legacy2.db.close()
             data_dir = os.path.join(d, "activitywatch", "aw-server")
             files = sorted(os.listdir(data_dir))
-            lpath = os.path.join(data_dir, [f for f in files if f.startswith("peewee")][0])
+            lname = "peewee-sqlite" + ("-testing" if case["testing"] else "") + ".v2.db"
+            lpath = os.path.join(data_dir, lname)
+            for suffix in case.get("sidecar") or []:
+                if suffix == "-journal":
+                    open(lpath + suffix, "wb").close()
+                else:
+                    shutil.copy(lpath, lpath + suffix)
             h0 = file_hash(lpath)
             if case.get("other_first"):
                 # the store of the other profile already exists in the shared data directory
@@ -82,13 +120,17 @@ class C14(Prop):
                 new = SqliteStorage(testing=case["testing"], filepath=os.path.join(d, "custom.db"))
             store2 = type("S", (), {"st": new})
             new_dump = storelib.dump(store2)
+            if second is not None:
+                new2 = SqliteStorage(testing=not case["testing"])  # the first new store is still open
+                second["new"] = storelib.dump(type("S", (), {"st": new2}))
+                new2.conn.close()
             new.conn.close()
             try:
                 pw._db.close()
             except Exception:
                 pass
             h1 = file_hash(lpath) if os.path.exists(lpath) else "legacy file is gone"
-            return {"legacy": legacy_dump, "new": new_dump, "legacy_unchanged": h0 == h1, "files": files}
+            return {"legacy": legacy_dump, "new": new_dump, "legacy_unchanged": h0 == h1, "files": files, "second": second}
         finally:
             if old_env is None:
                 os.environ.pop("XDG_DATA_HOME", None)
@@ -127,16 +169,19 @@ class C14(Prop):
             if out["new"]:
                 return f"migration ran although it should not ({case['mode']}): {sorted(out['new'])}"
             return None
-        leg, new = out["legacy"], out["new"]
-        if sorted(leg) != sorted(new):
-            return f"buckets after migration {sorted(new)}, legacy {sorted(leg)}"
-        for b in leg:
-            if leg[b]["meta"] != new[b]["meta"]:
-                return f"bucket {b}: metadata {new[b]['meta']} differs from legacy {leg[b]['meta']}"
-            a = sorted(json.dumps(e[1:]) for e in leg[b]["events"])
-            c = sorted(json.dumps(e[1:]) for e in new[b]["events"])
-            if a != c:
-                return f"bucket {b}: {len(c)} events after migration, {len(a)} in the legacy store (or contents differ)"
+        pairs = [("", out["legacy"], out["new"])]
+        if out.get("second"):
+            pairs.append(("other profile, migrated second by the same process: ", out["second"]["legacy"], out["second"]["new"]))
+        for what, leg, new in pairs:
+            if sorted(leg) != sorted(new):
+                return f"{what}buckets after migration {sorted(new)}, legacy {sorted(leg)}"
+            for b in leg:
+                if leg[b]["meta"] != new[b]["meta"]:
+                    return f"{what}bucket {b}: metadata {new[b]['meta']} differs from legacy {leg[b]['meta']}"
+                a = sorted(json.dumps(e[1:]) for e in leg[b]["events"])
+                c = sorted(json.dumps(e[1:]) for e in new[b]["events"])
+                if a != c:
+                    return f"{what}bucket {b}: {len(c)} events after migration, {len(a)} in the legacy store (or contents differ)"
         return None
 
     def nontrivial(self, case, out):
